@@ -1,7 +1,7 @@
 -------------------------------- MODULE MCCli --------------------------------
 EXTENDS Cli
 AllCids == {"valid", "rejected", "missing"}
-AllKinds == {"accepted", "fieldRejected", "dupRejected", "shares", "missing", "directory"}
+AllKinds == {"accepted", "fieldRejected", "dupRejected", "shares", "lateDamage", "missing", "directory"}
 AllUntils == {"absent", "all", "0", "k2", "k9"}
 OkArgs == {"ok"}
 BadArgs == {"none", "unknownOption", "untilTooSmall", "untilNotNumber"}
